@@ -77,7 +77,15 @@ public:
 // ------------------------------------------------------------------------------------------------------------
 // small helpers
 static SV Split(const std::string & p, char sep) { SV v; size_t b=0; while(true) { size_t s=p.find(sep,b); v.push_back(p.substr(b, s==std::string::npos?std::string::npos:s-b)); if (s==std::string::npos) break; b=s+1; } return v; }
-static bool ClauseMatch(const std::string & pat, const std::string & s) { if (pat == "*") return true; SV alts = Split(pat, ','); for (size_t i=0; i<alts.size(); i++) if (alts[i] == s) return true; return false; }
+// the alternatives of one clause of a path pattern: split at unescaped commas, backslash escapes removed ("q\\(1\\)" names the node q(1));
+// the only wildcard generated is a clause that is exactly "*"
+static SV ClauseAlts(const std::string & pat)
+{
+   SV alts; std::string cur;
+   for (size_t i=0; i<pat.size(); i++) { if ((pat[i] == '\\')&&(i+1 < pat.size())) cur += pat[++i]; else if (pat[i] == ',') { alts.push_back(cur); cur.clear(); } else cur += pat[i]; }
+   alts.push_back(cur); return alts;
+}
+static bool ClauseMatch(const std::string & pat, const std::string & s) { if (pat == "*") return true; SV alts = ClauseAlts(pat); for (size_t i=0; i<alts.size(); i++) if (alts[i] == s) return true; return false; }
 // spelling of a subscription path: relative spellings get */*/ prepended; (path) is an absolute node path "/host/id/a/b"
 static bool PathMatch(const std::string & spelling, const std::string & path)
 {
@@ -684,12 +692,12 @@ static int Replay(const char * behFile, const char * repFile)
 
 // ------------------------------------------------------------------------------------------------------------
 // the trace given to TLC (TreeTrace.tla / IndexTrace.tla)
-static J PatternJ(const std::string & rel) { J p = J::Arr(); SV cl = Split(rel, '/'); for (size_t i=0; i<cl.size(); i++) p.push(JStrs(Split(cl[i], ','))); return p; }
+static J PatternJ(const std::string & rel) { J p = J::Arr(); SV cl = Split(rel, '/'); for (size_t i=0; i<cl.size(); i++) p.push(JStrs(cl[i] == "*" ? SV(1, "*") : ClauseAlts(cl[i]))); return p; }
 // the clauses of a subscription spelling below the session level (host and session clauses are wildcards in everything generated)
 static J SubPatternJ(const std::string & sp)
 {
    SV cl = Split(sp[0] == '/' ? sp.substr(1) : "*/*/"+sp, '/'); J p = J::Arr();
-   for (size_t i=2; i<cl.size(); i++) p.push(JStrs(Split(cl[i], ',')));
+   for (size_t i=2; i<cl.size(); i++) p.push(JStrs(cl[i] == "*" ? SV(1, "*") : ClauseAlts(cl[i])));
    return p;
 }
 static bool AbstractData(const J & cmd, J & out)       // set / remove in the vocabulary of TreeTrace; false: the effect on the tree is not determined by the command alone
@@ -772,12 +780,14 @@ static J Cmd(const char * op, const std::string & s) { J c = J::Obj(); c.set("op
 static J PathJ(const SV & v) { return JStrs(v); }
 
 struct Gen {
-   bool idxHeavy; SV names; SV pats; SV subpats;
+   bool idxHeavy; SV names; SV pnames; SV pats; SV subpats;
    Gen(bool ih) : idxHeavy(ih)
    {
-      const char * n[] = {"a", "b", "c"}; names.assign(n, n+3);
-      const char * p[] = {"a", "b", "*", "a/*", "*/b", "a,b", "*/*", "a/b", "c/*", "*/a,c"}; pats.assign(p, p+10);
-      const char * q[] = {"a", "b", "*", "a/*", "*/b", "a,b", "*/*", "/*/*/c", "/*/*", "/*/*/a/b", "c/*", "/*/*/*/a,c"}; subpats.assign(q, q+12);
+      // the third name contains characters that are operators in a pattern: every pattern names it in its escaped form (EscapeRegexTokens style)
+      const char * n[] = {"a", "b", "q(1)"}; names.assign(n, n+3);
+      const char * e[] = {"a", "b", "q\\(1\\)"}; pnames.assign(e, e+3);
+      const char * p[] = {"a", "b", "*", "a/*", "*/b", "a,b", "*/*", "a/b", "q\\(1\\)/*", "*/a,q\\(1\\)", "q\\(1\\)", "a/q\\(1\\)"}; pats.assign(p, p+12);
+      const char * q[] = {"a", "b", "*", "a/*", "*/b", "a,b", "*/*", "/*/*/q\\(1\\)", "/*/*", "/*/*/a/b", "q\\(1\\)/*", "/*/*/*/a,q\\(1\\)", "a/q\\(1\\)", "b,q\\(1\\)"}; subpats.assign(q, q+14);
    }
    J RandSet(const std::string & s)
    {
@@ -796,13 +806,13 @@ struct Gen {
       return c;
    }
    std::string Gname() { return std::string("I") + std::to_string(R(4)); }
-   J RandInsert(const std::string & s) { J c = Cmd("insert", s); c.set("key", J::Str(R(4) ? names[R(2)] : std::string(R(2) ? "*" : "a/*"))); c.set("before", J::Str(R(2) ? Gname() : std::string("zz"))); c.set("v", J::Int(1+R(2))); return c; }
+   J RandInsert(const std::string & s) { J c = Cmd("insert", s); c.set("key", J::Str(R(4) ? pnames[R(3)] : std::string(R(2) ? "*" : "a/*"))); c.set("before", J::Str(R(2) ? Gname() : std::string("zz"))); c.set("v", J::Int(1+R(2))); return c; }
    J RandReorder(const std::string & s)
    {
-      J c = Cmd("reorder", s); std::string child = R(5) ? Gname() : (R(2) ? std::string("*") : names[R(3)]);
-      c.set("path", J::Str(names[R(2)] + "/" + child)); const uint32 k = R(6); c.set("before", J::Str(k == 0 ? std::string("zz") : k == 1 ? std::string(REMOVE_FROM_INDEX) : k == 2 ? names[R(3)] : Gname())); return c;
+      J c = Cmd("reorder", s); std::string child = R(5) ? Gname() : (R(2) ? std::string("*") : pnames[R(3)]);
+      c.set("path", J::Str(pnames[R(3)] + "/" + child)); const uint32 k = R(6); c.set("before", J::Str(k == 0 ? std::string("zz") : k == 1 ? std::string(REMOVE_FROM_INDEX) : k == 2 ? names[R(3)] : Gname())); return c;
    }
-   J RandRemoveChild(const std::string & s) { J c = Cmd("remove", s); c.set("key", J::Str(names[R(2)] + "/" + (R(4) ? Gname() : std::string("*")))); return c; }
+   J RandRemoveChild(const std::string & s) { J c = Cmd("remove", s); c.set("key", J::Str(pnames[R(3)] + "/" + (R(4) ? Gname() : std::string("*")))); return c; }
    J RandSubscribe(Client & c, uint32 nf)
    {
       const std::string & s = c.name;
@@ -849,7 +859,7 @@ struct Gen {
          if (cp < 2)
          {
             J e; const uint32 j = R(4);
-            if (j < 2) { e = Cmd("getdata", s); e.set("sp", J::Str(R(2) ? names[R(3)] : subpats[R((uint32)subpats.size())])); e.set("f", J::Int(R(4) ? 0 : 1)); }
+            if (j < 2) { e = Cmd("getdata", s); e.set("sp", J::Str(R(2) ? pnames[R(3)] : subpats[R((uint32)subpats.size())])); e.set("f", J::Int(R(4) ? 0 : 1)); }
             else if ((j == 2)&&(!c.subs.empty())) { e = Cmd("unsubscribe", s); e.set("sp", J::Str(c.subs[R((uint32)c.subs.size())].sp)); }
             else { e = RandSubscribe(c, 1); if (e.has("quiet")) e.set("quiet", J::Bool(false)); }
             if (e["op"].s != "noop") { if (cp == 0) cmds.a.insert(cmds.a.begin(), e); else cmds.push(e); }
